@@ -1064,6 +1064,14 @@ pub struct GlobalData {
     pub data: DataStore,
 }
 
+#[cfg(feature = "Verif_Hooks")]
+impl GlobalData {
+    /// Verification hook: number of events waiting in the internal queue.
+    pub fn verif_internal_queue_len(&self) -> usize {
+        self.internalQueue.data.len()
+    }
+}
+
 impl GlobalData {
     pub fn new() -> GlobalData {
         GlobalData {
